@@ -36,6 +36,8 @@ type Contract struct {
 	modset     *ModSet
 	Asserts    []*AssertAt
 	Keeps      []string          // C05: receiver fields that DecodeFromBytes deliberately leaves to the caller
+	ghosts     []string
+	HasRecv    bool              // extern contracts: ParamNames[0] names the receiver
 	ParamNames []string          // extern contracts: parameter names from the header
 	Devirt     map[string]string // parameter name -> concrete type name (interface parameter known to hold *T)
 }
@@ -161,14 +163,36 @@ func (e *Engine) parseContractLines(pkg *types.Package, file string, lines []str
 			e.contracts[key] = cur
 		case "extern":
 			// extern pkg.Func(a T, b U) result-type : assumed contract of a function outside the module
-			i := strings.Index(rest, "(")
-			j := strings.Index(rest, ")")
+			// method form: extern (w *bufio.Writer) Write(p []byte) (int, error)  -> key "(*bufio.Writer).Write"
+			hdr := rest
+			recvName, recvType := "", ""
+			if strings.HasPrefix(hdr, "(") {
+				k := strings.Index(hdr, ")")
+				if k < 0 {
+					return fmt.Errorf("%s:%d: bad extern header", file, cl.line)
+				}
+				rf := strings.Fields(hdr[1:k])
+				if len(rf) != 2 {
+					return fmt.Errorf("%s:%d: extern receiver must be (name Type)", file, cl.line)
+				}
+				recvName, recvType = rf[0], rf[1]
+				hdr = strings.TrimSpace(hdr[k+1:])
+			}
+			i := strings.Index(hdr, "(")
+			j := strings.Index(hdr, ")")
 			if i < 0 || j < i {
 				return fmt.Errorf("%s:%d: bad extern header", file, cl.line)
 			}
-			name := strings.TrimSpace(rest[:i])
+			name := strings.TrimSpace(hdr[:i])
+			if recvType != "" {
+				name = "(" + recvType + ")." + name
+			}
 			cur = &Contract{Key: "extern:" + name, Pkg: pkg, Header: rest, Loops: map[int]*LoopSpec{}, File: file, Line: cl.line, Trusted: true}
-			for _, sp := range parseParams(rest[i+1 : j]) {
+			if recvName != "" {
+				cur.ParamNames = append(cur.ParamNames, recvName)
+				cur.HasRecv = true
+			}
+			for _, sp := range parseParams(hdr[i+1 : j]) {
 				cur.ParamNames = append(cur.ParamNames, sp.Name)
 			}
 			curLemma = nil
@@ -182,12 +206,16 @@ func (e *Engine) parseContractLines(pkg *types.Package, file string, lines []str
 				return fmt.Errorf("%s:%d: bad ifacecontract header", file, cl.line)
 			}
 			name := strings.TrimSpace(rest[:i])
-			cur = &Contract{Key: "iface:" + pkg.Name() + "." + name, Pkg: pkg, Header: rest, Loops: map[int]*LoopSpec{}, File: file, Line: cl.line, Trusted: true}
+			qual := pkg.Name() + "." + name
+			if strings.Count(name, ".") == 2 {
+				qual = name // interface of another package, written pkg.Iface.Method (e.g. io.Writer.Write)
+			}
+			cur = &Contract{Key: "iface:" + qual, Pkg: pkg, Header: rest, Loops: map[int]*LoopSpec{}, File: file, Line: cl.line, Trusted: true}
 			for _, sp := range parseParams(rest[i+1 : j]) {
 				cur.ParamNames = append(cur.ParamNames, sp.Name)
 			}
 			curLemma = nil
-			e.ifaceCts[pkg.Name()+"."+name] = cur
+			e.ifaceCts[qual] = cur
 		case "devirt":
 			if cur == nil {
 				return fmt.Errorf("%s:%d: devirt outside func", file, cl.line)
@@ -490,6 +518,9 @@ func (e *Engine) contractMods(f *ssa.Function, ct *Contract) *ModSet {
 		derived = e.fnModsRaw(f)
 	}
 	for _, pat := range ct.Modifies {
+		if strings.HasPrefix(pat, "contents(") {
+			continue // handled at the call site (window of a slice argument)
+		}
 		switch pat {
 		case "nothing":
 		case "alloc":
@@ -515,6 +546,35 @@ func (e *Engine) contractMods(f *ssa.Function, ct *Contract) *ModSet {
 	}
 	ct.modset = m
 	return m
+}
+
+// ghostKeys: ghost variables mentioned in the postconditions of a contract (they change through that contract).
+func (ct *Contract) ghostKeys() []string {
+	if ct.ghosts != nil {
+		return ct.ghosts
+	}
+	seen := map[string]bool{}
+	var walk func(e *Expr)
+	walk = func(e *Expr) {
+		if e == nil {
+			return
+		}
+		if e.Op == "call" && e.Name == "ghost" && len(e.A) == 1 && e.A[0].Op == "ident" {
+			seen["ghost:"+e.A[0].Name] = true
+		}
+		for _, a := range e.A {
+			walk(a)
+		}
+	}
+	for _, en := range ct.Ensures {
+		walk(en)
+	}
+	ct.ghosts = []string{}
+	for k := range seen {
+		ct.ghosts = append(ct.ghosts, k)
+	}
+	sort.Strings(ct.ghosts)
+	return ct.ghosts
 }
 
 // fnModsRaw: body-derived write set even for contracted functions.
